@@ -255,6 +255,24 @@ Theorem C12_end_to_end_tail :
     (forall v', v' <> f_version f_new -> tbl_get t' v' = tbl_get t v').
 Proof. exact (C12_end_to_end_tail_lemma hash hash_eqb HS hash_eqb_spec). Qed.
 
+(** 14. Attribution. The first [j] statements are as recorded and statement
+    [j+1] -- one of the applied ones, whichever attempt applied it -- is not (it was
+    edited, or the file now ends before it): the history-changed error names
+    exactly statement [j+1] (Go: HistoryChangedError.Stmt), or the two versions
+    of the file collide under [HS] at that very prefix. *)
+Theorem C12_refuse_names_first_edited :
+  forall (t : list (rev hash)) (fs : list bool) (f : file) (r : rev hash) (old : list bytes) (j : nat),
+  tbl_get t (f_version f) = Some r -> recorded hash HS r old ->
+  j < r_applied r ->
+  firstn j (f_stmts f) = firstn j old ->
+  firstn (S j) (f_stmts f) <> firstn (S j) old ->
+  hd false fs = false ->
+  forall o t' fs' es, execute hash hash_eqb HS f t fs = (o, t', fs', es) ->
+  o = OHistory (S j) \/
+  (concat (firstn (S j) (f_stmts f)) <> concat (firstn (S j) old) /\
+   HS (concat (firstn (S j) (f_stmts f))) = HS (concat (firstn (S j) old))).
+Proof. exact (C12_attribution_lemma hash hash_eqb HS hash_eqb_spec). Qed.
+
 End C12.
 
 Print Assumptions C12_refuse.
@@ -273,6 +291,7 @@ Print Assumptions C12_tail_edit_cli_apply.
 Print Assumptions C12_progress_never_lost.
 Print Assumptions C12_end_to_end_refuse.
 Print Assumptions C12_end_to_end_tail.
+Print Assumptions C12_refuse_names_first_edited.
 
 (** Non-vacuity: a concrete table/file meeting the hypotheses of 1 and 3,
     with [HS] the identity on byte strings (a legitimate instance). *)
@@ -385,6 +404,16 @@ Proof.
     + vm_compute. reflexivity.
   - vm_compute. repeat split; auto; discriminate.
 Qed.
+
+(** [ex_file_changed] = A C C against A B C with two applied: statement 2 is the first edited one;
+    a file cut to one statement is reported at statement 2 as well *)
+Example C12_refuse_names_first_edited_nonvacuous :
+  firstn 1 (f_stmts ex_file_changed) = firstn 1 ex_old /\
+  firstn 2 (f_stmts ex_file_changed) <> firstn 2 ex_old /\
+  fst (fst (fst (execute bytes bytes_eqb ex_HS ex_file_changed [ex_rev] []))) = OHistory 2 /\
+  fst (fst (fst (execute bytes bytes_eqb ex_HS (mkFile [49%N] [[65%N]] false) [ex_rev] []))) = OHistory 2 /\
+  fst (fst (fst (execute bytes bytes_eqb ex_HS (mkFile [49%N] [[66%N]; [66%N]; [67%N]] false) [ex_rev] []))) = OHistory 1.
+Proof. vm_compute. repeat split; auto; discriminate. Qed.
 
 (** Clause (a) is needed. With a store that reports a failing lookup as
     "revision does not exist" ([execute_st_lax]: `if err != nil { return nil,
